@@ -187,7 +187,10 @@ def flag_script(g, pol, rnd):
         single = g["callers"].count(c) == 1
         kinds[str(c)] = rnd.choice(["safe", "plain"]) if single else "safe"   # plain closures are not shared
     return {"ns": g["ns"], "callers": g["callers"], "policy": pol,
-            "setter": rnd.choice(["user", "user", "def", "replace", "repldef"]),
+            # one setter: every third script changes the release level instead (the observed option is a beta option with a
+            # user value: raising the level is the write that makes it visible)
+            "setter": rnd.choice(["level", "leveldef"]) if g["ns"] == 1 and rnd.random() < 0.34 else
+                      rnd.choice(["user", "user", "def", "replace", "repldef"]),
             "otype": rnd.choice(["string", "int", "array"]), "kinds": kinds}
 
 
